@@ -666,3 +666,113 @@ Proof.
   - apply score_cmp_antisym.
   - apply score_cmp_lt_trans.
 Qed.
+
+(* ================================================================== normal forms of scores *)
+(* [score_cmp] refines the numeric order by the exponent; on the normal forms the model builds
+   (parse_score and score_add end in snorm) the refinement is never consulted: it IS the numeric
+   order there. *)
+Definition snormal (s : score) : Prop :=
+  match s with
+  | SFin m e => (m = 0 -> e = 0%N) /\ (e <> 0%N -> m mod 10 <> 0)
+  | _ => True
+  end.
+
+Definition svalue_cmp (a b : score) : comparison :=
+  match a, b with
+  | SNegInf, SNegInf => Eq
+  | SNegInf, _ => Lt
+  | _, SNegInf => Gt
+  | SPosInf, SPosInf => Eq
+  | SPosInf, _ => Gt
+  | _, SPosInf => Lt
+  | SFin m1 e1, SFin m2 e2 => Z.compare (m1 * pow10 e2) (m2 * pow10 e1)
+  end.
+
+Lemma pow10_succ e : (e <> 0)%N -> pow10 e = 10 * pow10 (e - 1).
+Proof.
+  intros H. unfold pow10. replace (Z.of_N e) with (Z.succ (Z.of_N (e - 1))) by lia.
+  rewrite Z.pow_succ_r by lia. reflexivity.
+Qed.
+
+Lemma strip10_spec fuel m e m' e' :
+  (N.to_nat e <= fuel)%nat -> m <> 0 -> strip10 fuel m e = (m', e') ->
+  m' <> 0 /\ (e' <> 0%N -> m' mod 10 <> 0) /\ m' * pow10 e = m * pow10 e'.
+Proof.
+  revert m e. induction fuel as [|f IH]; intros m e Hf Hm; cbn [strip10].
+  - intros H. inversion H; subst. repeat split; [exact Hm|lia].
+  - destruct (N.eqb_spec e 0) as [->|Ne].
+    + intros H. inversion H; subst. repeat split; [exact Hm|congruence].
+    + destruct (Z.eqb_spec (m mod 10) 0) as [Hz|Hz].
+      * intros H. apply IH in H; [|lia|].
+        -- destruct H as (H1 & H2 & H3). repeat split; try assumption.
+           rewrite (pow10_succ e Ne).
+           assert (Em : m = 10 * (m / 10)) by (pose proof (Z.div_mod m 10); lia).
+           set (q := m / 10) in *. rewrite Em.
+           transitivity (10 * (m' * pow10 (e - 1))); [ring|]. rewrite H3. ring.
+        -- intros Q. pose proof (Z.div_mod m 10). lia.
+      * intros H. inversion H; subst. repeat split; [exact Hm|intros _; exact Hz].
+Qed.
+
+Lemma snorm_normal s : snormal (snorm s).
+Proof.
+  destruct s as [|m e|]; cbn; try exact I.
+  destruct (Z.eqb_spec m 0) as [->|Nm]; [cbn; split; [reflexivity|congruence]|].
+  destruct (strip10 (N.to_nat e) m e) as [m' e'] eqn:E.
+  apply strip10_spec in E as (H1 & H2 & _); [|lia|exact Nm]. cbn. split; [congruence|exact H2].
+Qed.
+
+Lemma snorm_value s : svalue_cmp (snorm s) s = Eq.
+Proof.
+  destruct s as [|m e|]; cbn; try reflexivity.
+  destruct (Z.eqb_spec m 0) as [->|Nm]; [cbn; reflexivity|].
+  destruct (strip10 (N.to_nat e) m e) as [m' e'] eqn:E.
+  apply strip10_spec in E as (_ & _ & H3); [|lia|exact Nm]. cbn. apply Z.compare_eq_iff. exact H3.
+Qed.
+
+Lemma normal_same_value m1 e1 m2 e2 :
+  snormal (SFin m1 e1) -> snormal (SFin m2 e2) -> m1 * pow10 e2 = m2 * pow10 e1 -> e1 = e2.
+Proof.
+  assert (Half : forall m1 e1 m2 e2, snormal (SFin m1 e1) -> snormal (SFin m2 e2) ->
+                   m1 * pow10 e2 = m2 * pow10 e1 -> (e1 < e2)%N -> False).
+  { clear. intros m1 e1 m2 e2 [A1 A2] [B1 B2] E L.
+    assert (Ne2 : e2 <> 0%N) by lia.
+    assert (P : pow10 e2 = pow10 (e2 - e1) * pow10 e1).
+    { unfold pow10. rewrite <- Z.pow_add_r by lia. f_equal. lia. }
+    rewrite P in E. pose proof (pow10_pos e1) as P1.
+    assert (E' : m1 * pow10 (e2 - e1) = m2).
+    { apply (Z.mul_cancel_r _ _ (pow10 e1)); [lia|]. rewrite <- E. ring. }
+    rewrite (pow10_succ (e2 - e1)) in E' by lia.
+    apply (B2 Ne2). rewrite <- E'. replace (m1 * (10 * pow10 (e2 - e1 - 1))) with ((m1 * pow10 (e2 - e1 - 1)) * 10) by ring.
+    apply Z.mod_mul. lia. }
+  intros N1 N2 E. destruct (N.lt_trichotomy e1 e2) as [L|[Q|L]]; [exfalso|exact Q|exfalso].
+  - exact (Half m1 e1 m2 e2 N1 N2 E L).
+  - exact (Half m2 e2 m1 e1 N2 N1 (eq_sym E) L).
+Qed.
+
+Lemma score_cmp_normal a b : snormal a -> snormal b -> score_cmp a b = svalue_cmp a b.
+Proof.
+  destruct a as [|m1 e1|], b as [|m2 e2|]; cbn [score_cmp svalue_cmp]; try reflexivity.
+  intros N1 N2. destruct (Z.compare_spec (m1 * pow10 e2) (m2 * pow10 e1)) as [E|L|G]; try reflexivity.
+  rewrite (normal_same_value _ _ _ _ N1 N2 E). apply N.compare_refl.
+Qed.
+
+Lemma parse_score_normal s sc : parse_score s = Some sc -> snormal sc.
+Proof.
+  unfold parse_score.
+  destruct (match s with
+            | "-"%byte :: t => (true, t)
+            | "+"%byte :: t => (false, t)
+            | _ => (false, s)
+            end) as [neg body].
+  destruct (if is (lower body) (B "inf") || is (lower body) (B "infinity") then Some SPosInf
+            else parse_udecimal body) as [v|]; [|discriminate].
+  intros H. inversion H. apply snorm_normal.
+Qed.
+
+Lemma score_add_normal a b c : snormal a -> snormal b -> score_add a b = Some c -> snormal c.
+Proof.
+  destruct a as [|m1 e1|], b as [|m2 e2|]; cbn [score_add]; intros Na Nb H;
+    try (inversion H; subst; exact I).
+  match type of H with Some ?x = Some _ => assert (E : c = x) by congruence; rewrite E end.
+  apply snorm_normal.
+Qed.
